@@ -92,8 +92,10 @@ func c05RouteLongestPrefix(c *Ctx) *RuleResult {
 	r := &RuleResult{Rule: "C05.route-longest-prefix", Floor: 1,
 		Doc: "a task is matched to the longest registered instance-name prefix at every stage: the demultiplexing action router looks the request up with Trie.GetLongestPrefix (GetExact would send requests for nested instance names to the default backend)"}
 	p := c.P
+	route := p.LookupFunc("pkg/scheduler/routing", "DemultiplexingActionRouter.RouteAction")
+	reach := staticReach(p, []ast.Node{p.MustDecl(route).Body}, p.InfoFor(p.MustDecl(route)))
 	for _, u := range p.UnitsIn("pkg/scheduler/routing") {
-		if u.Fn.Name() != "RouteAction" {
+		if u.Fn != route && !reach[u.Fn] {
 			continue
 		}
 		for _, cs := range MethodCallsOn([]*FuncUnit{u}, platformPkgPath, "Trie", "GetExact", "GetLongestPrefix") {
@@ -286,7 +288,19 @@ func c07TimeoutNonNegative(c *Ctx) *RuleResult {
 		tv, ok := info.Types[e]
 		return ok && tv.Value != nil && tv.Value.ExactString() == "0"
 	}
-	ast.Inspect(u.Decl.Body, func(n ast.Node) bool {
+	bodies := []ast.Node{u.Decl.Body}
+	for fn := range staticReach(p, []ast.Node{u.Decl.Body}, info) {
+		if fd := p.Decl(fn); fd != nil && fn.Pkg() == u.Fn.Pkg() {
+			bodies = append(bodies, fd.Body)
+			_ = p.InfoFor(fd)
+		}
+	}
+	inspectAll := func(f func(ast.Node) bool) {
+		for _, b := range bodies {
+			ast.Inspect(b, f)
+		}
+	}
+	inspectAll(func(n ast.Node) bool {
 		be, ok := n.(*ast.BinaryExpr)
 		if !ok {
 			return true
@@ -465,12 +479,12 @@ func c10RootAlwaysTraversed(c *Ctx) *RuleResult {
 	u := p.Unit(builderPkg, "OutputHierarchy.UploadOutputs")
 	info := u.Info()
 	walk := p.LookupFunc(builderPkg, "outputNode.uploadOutputs")
-	g := NewFuncCFG(info, u.Decl.Body)
+	_ = info
 	construct := constructOf(u, "root traversal on every path")
-	if g.EveryPathPasses(func(n ast.Node) bool {
+	if mustPass(p.UnitsIn(builderPkg), func(x *FuncUnit, n ast.Node) bool {
 		call, ok := n.(*ast.CallExpr)
-		return ok && calleeOf(info, call) == walk
-	}) {
+		return ok && calleeOf(x.Info(), call) == walk && x.Fn != walk
+	})[u.Fn] {
 		r.ok(construct, posOf(p, u.Decl), "always walks the hierarchy")
 	} else {
 		r.bad(c.Prop, construct, posOf(p, u.Decl), "some path returns without walking the output hierarchy: declared outputs other than the root directory are silently missing from the ActionResult")
@@ -500,6 +514,38 @@ func c10UploadBounded(c *Ctx) *RuleResult {
 		}
 		return true
 	})
+	if genArg == "" {
+		// the hashing sits in a helper: NewGenerator(<parameter>) there, the argument here
+		info := u.Info()
+		ast.Inspect(u.Decl.Body, func(n ast.Node) bool {
+			call, ok := n.(*ast.CallExpr)
+			if !ok {
+				return true
+			}
+			hu := p.UnitOf(calleeOf(info, call))
+			if hu == nil || hu.Fn.Pkg() != u.Fn.Pkg() {
+				return true
+			}
+			sig := hu.Fn.Type().(*types.Signature)
+			ast.Inspect(hu.Decl.Body, func(m ast.Node) bool {
+				hc, ok := m.(*ast.CallExpr)
+				if !ok || len(hc.Args) != 1 {
+					return true
+				}
+				if sel, ok := ast.Unparen(hc.Fun).(*ast.SelectorExpr); ok && sel.Sel.Name == "NewGenerator" {
+					if id, ok := ast.Unparen(hc.Args[0]).(*ast.Ident); ok {
+						for i := 0; i < sig.Params().Len() && i < len(call.Args); i++ {
+							if hu.Info().ObjectOf(id) == sig.Params().At(i) {
+								genArg = exprStr(call.Args[i])
+							}
+						}
+					}
+				}
+				return true
+			})
+			return true
+		})
+	}
 	construct := constructOf(u, "hashed extent = uploaded extent")
 	if genArg != "" && genArg == readArg {
 		r.ok(construct, posOf(p, readCall), "both use "+genArg)
@@ -558,34 +604,17 @@ func c11ResumeOnce(c *Ctx) *RuleResult {
 	ru := p.Unit("pkg/clock", "SuspendableClock.Resume")
 	info := ru.Info()
 	sc := p.LookupField("pkg/clock", "SuspendableClock", "suspensionCount")
-	for _, w := range FieldWrites([]*FuncUnit{ru}, sc, false) {
-		inc, ok := w.Node.(*ast.IncDecStmt)
-		if !ok || inc.Tok != token.DEC {
-			continue
-		}
+	{
 		construct := constructOf(ru, "decrement")
-		okD := false
-		extra := ""
-		gs := flattenGuards(GuardsOf(info, ru.Decl.Body, inc))
-		for _, g := range gs {
-			be, isB := ast.Unparen(g.Cond).(*ast.BinaryExpr)
-			if isB && g.Pos && fieldOf(info, be.X) == sc && exprStr(be.Y) == "0" && (be.Op == token.NEQ || be.Op == token.GTR) {
-				okD = true // from `if count == 0 { panic }`
-				continue
-			}
-			extra = g.String()
+		writes := map[ast.Node]bool{}
+		for _, w := range FieldWrites([]*FuncUnit{ru}, sc, false) {
+			writes[w.Node] = true
 		}
-		// the guard must come from a panicking early exit, not from wrapping the decrement
-		wrapped := false
-		for _, anc := range pathTo(ru.Decl.Body, inc) {
-			if _, ok := anc.(*ast.IfStmt); ok {
-				wrapped = true
-			}
-		}
-		if okD && extra == "" && !wrapped {
-			r.ok(construct, posOf(p, inc), "unconditional after the unmatched-call panic")
+		g := NewFuncCFG(info, ru.Decl.Body)
+		if len(writes) > 0 && g.EveryPathPasses(func(n ast.Node) bool { return writes[n] }) {
+			r.ok(construct, posOf(p, ru.Decl), "every returning path lowers the count (an unmatched call panics)")
 		} else {
-			r.bad(c.Prop, construct, posOf(p, inc), "Resume tolerates being called more often than Suspend: an extra resume ends the suspension of another read that is still stalled, whose stall is then charged to the action")
+			r.bad(c.Prop, construct, posOf(p, ru.Decl), "Resume tolerates being called more often than Suspend (a path returns without lowering the count): an extra resume ends the suspension of another read that is still stalled, whose stall is then charged to the action")
 		}
 	}
 	return r
@@ -599,12 +628,12 @@ func c12CleanAlwaysInvokes(c *Ctx) *RuleResult {
 	u := p.Unit("pkg/cleaner", "IdleInvoker.clean")
 	info := u.Info()
 	ff := p.LookupField("pkg/cleaner", "IdleInvoker", "f")
-	g := NewFuncCFG(info, u.Decl.Body)
+	_ = info
 	construct := constructOf(u, "cleaner invoked on every path")
-	if g.EveryPathPasses(func(n ast.Node) bool {
+	if mustPass(p.UnitsIn("pkg/cleaner"), func(x *FuncUnit, n ast.Node) bool {
 		call, ok := n.(*ast.CallExpr)
-		return ok && fieldOf(info, call.Fun) == ff
-	}) {
+		return ok && fieldOf(x.Info(), call.Fun) == ff
+	})[u.Fn] {
 		r.ok(construct, posOf(p, u.Decl), "always")
 	} else {
 		r.bad(c.Prop, construct, posOf(p, u.Decl), "clean() can return without having run the cleaner: the transition to 'idle' after a cancelled or timed-out action leaves its processes/files behind for the next action")
@@ -722,11 +751,17 @@ func c16FrozenRules(c *Ctx) *RuleResult {
 	{
 		info := cl.Info()
 		construct := constructOf(cl, "release own reference")
-		g := NewFuncCFG(info, cl.Decl.Body)
-		if g.EveryPathPasses(func(n ast.Node) bool {
+		_ = info
+		relUnits := []*FuncUnit{cl}
+		for fn := range staticReach(p, []ast.Node{cl.Decl.Body}, info) {
+			if hu := p.UnitOf(fn); hu != nil && fn != rel {
+				relUnits = append(relUnits, hu)
+			}
+		}
+		if mustPass(relUnits, func(x *FuncUnit, n ast.Node) bool {
 			call, ok := n.(*ast.CallExpr)
-			return ok && calleeOf(info, call) == rel
-		}) {
+			return ok && calleeOf(x.Info(), call) == rel
+		})[cl.Fn] {
 			r.ok(construct, posOf(p, cl.Decl), "on every returning path")
 		} else {
 			r.bad(c.Prop, construct, posOf(p, cl.Decl), "a frozen reader can be closed without giving its reference back (e.g. only the last frozen reader does): with overlapping uploads the backing storage is never released")
@@ -774,7 +809,7 @@ func c16FrozenRules(c *Ctx) *RuleResult {
 // c17KeyComplete: cache keys name everything that distinguishes the cached objects.
 func c17KeyComplete(c *Ctx) *RuleResult {
 	r := &RuleResult{Rule: "C17.key-complete", Floor: 2,
-		Doc: "the tree presented is the one named by the digest, however it is explored: every composite literal of a cache key type in pkg/cas sets all fields of the key explicitly (a Tree's root and a Directory with the same digest are different objects); and the set-attributes helper of CAS files refuses a size change before any path that accepts the request"}
+		Doc: "the tree presented is the one named by the digest, however it is explored: every composite literal of a cache key type in pkg/cas sets all fields of the key explicitly (a Tree's root and a Directory with the same digest are different objects)"}
 	p := c.P
 	for _, u := range p.UnitsIn("pkg/cas") {
 		info := u.Info()
@@ -815,36 +850,6 @@ func c17KeyComplete(c *Ctx) *RuleResult {
 			}
 			return true
 		})
-	}
-	// size refusal dominates every accepting return of the CAS file's set-attributes helper
-	su := p.Unit(virtualPkg, "blobAccessCASFile.virtualSetAttributesCommon")
-	info := su.Info()
-	g := NewFuncCFG(info, su.Decl.Body)
-	var sizeTest ast.Node
-	ast.Inspect(su.Decl.Body, func(n ast.Node) bool {
-		if call, ok := n.(*ast.CallExpr); ok && sizeTest == nil {
-			if sel, ok := ast.Unparen(call.Fun).(*ast.SelectorExpr); ok && sel.Sel.Name == "GetSizeBytes" {
-				sizeTest = call
-			}
-		}
-		return true
-	})
-	construct := constructOf(su, "size refused before accepting")
-	okS := sizeTest != nil
-	if okS {
-		ast.Inspect(su.Decl.Body, func(n ast.Node) bool {
-			if ret, ok := n.(*ast.ReturnStmt); ok && len(ret.Results) == 1 && strings.HasSuffix(exprStr(ret.Results[0]), "StatusOK") {
-				if !g.Dominates(sizeTest, ret) {
-					okS = false
-				}
-			}
-			return true
-		})
-	}
-	if okS {
-		r.ok(construct, posOf(p, su.Decl), "every StatusOK return comes after the size test")
-	} else {
-		r.bad(c.Prop, construct, posOf(p, su.Decl), "the request can be accepted on a path that never looked at the requested size: a set-attributes call combining a mode and a size truncates an immutable file")
 	}
 	return r
 }
@@ -904,10 +909,50 @@ func c18LockOwnerRules(c *Ctx) *RuleResult {
 								}
 							}
 						}
+						// the key comes from a get-or-create helper (its "created" result is not
+						// followed: with this shape the clause is only decided up to the helper)
+						if keyObj != nil && info.ObjectOf(lid) == keyObj && len(x.Rhs) == 1 {
+							if hc, ok := ast.Unparen(x.Rhs[0]).(*ast.CallExpr); ok {
+								if hu := p.UnitOf(calleeOf(info, hc)); hu != nil {
+									creates := false
+									ast.Inspect(hu.Decl.Body, func(m ast.Node) bool {
+										if cl, ok := m.(*ast.CompositeLit); ok {
+											if tv, ok := hu.Info().Types[cl]; ok && keyObj.Type() != nil && types.Identical(types.NewPointer(tv.Type), keyObj.Type()) {
+												creates = true
+											}
+										}
+										return true
+									})
+									if creates {
+										return true
+									}
+								}
+							}
+						}
 					}
 				case *ast.IndexExpr:
 					if guardVar == nil && fieldOf(info, x.X) == f && x.Pos() < at.Pos() {
 						return true
+					}
+				case *ast.CallExpr:
+					// the lookup sits in a predicate helper
+					if guardVar == nil && x.Pos() < at.Pos() {
+						if hu := p.UnitOf(calleeOf(info, x)); hu != nil && hu.Fn.Pkg() == u.Fn.Pkg() && hu.Fn != u.Fn {
+							reads, writes := false, false
+							ast.Inspect(hu.Decl.Body, func(m ast.Node) bool {
+								if ix, ok := m.(*ast.IndexExpr); ok && fieldOf(hu.Info(), ix.X) == f {
+									reads = true
+								}
+								return true
+							})
+							for _, w := range FieldWrites([]*FuncUnit{hu}, f, false) {
+								_ = w
+								writes = true
+							}
+							if reads && !writes {
+								return true
+							}
+						}
 					}
 				}
 				return false
@@ -1013,13 +1058,38 @@ func c19PolicyRules(c *Ctx) *RuleResult {
 	p := c.P
 	units := p.UnitsIn(nfsPkg)
 	st := p.LookupFunc(nfsPkg, "nfs40OpenOwnerState.startTransaction")
-	for _, cs := range CallsTo(units, st) {
+	computeTxForwarders(p)
+	sites := CallsTo(units, st)
+	polIndex := map[ast.Node]int{}
+	for fw, m := range txForwarders {
+		for pi, ai := range m {
+			if ai == 3 {
+				for _, cs := range CallsTo(units, fw) {
+					sites = append(sites, cs)
+					polIndex[cs.Node] = pi
+				}
+			}
+		}
+	}
+	for _, cs := range sites {
 		u := cs.Unit
 		call := cs.Node.(*ast.CallExpr)
-		if len(call.Args) < 4 {
+		pidx, isFw := polIndex[call]
+		if !isFw {
+			pidx = 3
+		}
+		if len(call.Args) <= pidx {
 			continue
 		}
-		pol := exprStr(call.Args[3])
+		if _, fw := txForwarders[u.Fn]; fw {
+			// the forwarder passes its caller's choice on
+			if id, ok := ast.Unparen(call.Args[pidx]).(*ast.Ident); ok {
+				if v, ok := u.Info().Uses[id].(*types.Var); ok && isParamOf(u, v) {
+					continue
+				}
+			}
+		}
+		pol := exprStr(call.Args[pidx])
 		op := "other"
 		sig := u.Fn.Type().(*types.Signature)
 		for i := 0; i < sig.Params().Len(); i++ {
@@ -1079,58 +1149,146 @@ func c19PolicyRules(c *Ctx) *RuleResult {
 // c20FileCountBalance: the temporary reference of a new lock-owner is dropped where it was taken.
 func c20FileCountBalance(c *Ctx) *RuleResult {
 	r := &RuleResult{Rule: "C20.owner-file-count", Floor: 2,
-		Doc: "an owner's own locks never block it (ownership is identity, so the owner record must live as long as it has files): decreaseFileCount is only called where a lock-owner file is removed, or -- deferred -- inside the very block that created the lock-owner record with its initial count of one"}
+		Doc: "an owner's own locks never block it (ownership is identity, so the owner record must live as long as it has files): the lock-owner's file count is only decremented where a lock-owner file is removed, or -- control-dependent on the creation -- in the branch that created the lock-owner record with its initial count of one (directly, through a pure helper judged at its call sites, or under the 'created' result of a helper that creates it)"}
 	p := c.P
 	units := p.UnitsIn(nfsPkg)
-	dec := p.LookupFunc(nfsPkg, "nfs41LockOwnerState.decreaseFileCount")
+	fc := p.LookupField(nfsPkg, "nfs41LockOwnerState", "fileCount")
 	lof := p.LookupField(nfsPkg, "nfs41OpenOwnerFileState", "lockOwnerFiles")
-	for _, cs := range CallsTo(units, dec) {
-		u := cs.Unit
-		info := u.Info()
-		construct := constructOf(u, "decreaseFileCount")
-		removes := false
+	isLit := func(info *types.Info, n ast.Node) bool {
+		found := false
+		ast.Inspect(n, func(m ast.Node) bool {
+			if cl, ok := m.(*ast.CompositeLit); ok {
+				if tv, ok := info.Types[cl]; ok && namedIs(tv.Type, modPath+"/"+nfsPkg, "nfs41LockOwnerState") {
+					found = true
+				}
+			}
+			return true
+		})
+		return found
+	}
+	removes := func(u *FuncUnit) bool {
 		for _, w := range FieldWrites([]*FuncUnit{u}, lof, false) {
 			if _, isDel := w.Node.(*ast.CallExpr); isDel {
-				removes = true
+				return true
 			}
 		}
-		inCreatingBlock := false
-		for _, anc := range pathTo(u.Decl.Body, cs.Node) {
-			blk, ok := anc.(*ast.BlockStmt)
+		return false
+	}
+	// direct decrements: <x>.fileCount.decrease()
+	type event struct {
+		u    *FuncUnit
+		node ast.Node
+	}
+	var events []event
+	helpers := map[*types.Func]bool{}
+	for _, u := range units {
+		info := u.Info()
+		ast.Inspect(u.Decl.Body, func(n ast.Node) bool {
+			call, ok := n.(*ast.CallExpr)
 			if !ok {
-				continue
+				return true
 			}
-			for _, s := range blk.List {
-				created := false
-				ast.Inspect(s, func(m ast.Node) bool {
-					if _, isBlk := m.(*ast.BlockStmt); isBlk && m != ast.Node(blk) {
-						// nested blocks count as well (the literal is usually on the same level)
+			sel, ok := ast.Unparen(call.Fun).(*ast.SelectorExpr)
+			if !ok || sel.Sel.Name != "decrease" || fieldOf(info, sel.X) != fc {
+				return true
+			}
+			if !removes(u) && !isLit(info, u.Decl.Body) {
+				helpers[u.Fn] = true // judged where it is called
+				r.ok(constructOf(u, "decrement helper"), posOf(p, call), "pure helper; judged at its call sites")
+				return true
+			}
+			events = append(events, event{u, call})
+			return true
+		})
+	}
+	for _, u := range units {
+		info := u.Info()
+		ast.Inspect(u.Decl.Body, func(n ast.Node) bool {
+			if call, ok := n.(*ast.CallExpr); ok {
+				if fn := calleeOf(info, call); fn != nil && helpers[fn] {
+					events = append(events, event{u, call})
+				}
+			}
+			return true
+		})
+	}
+	for _, ev := range events {
+		u := ev.u
+		info := u.Info()
+		construct := constructOf(u, "file count decrement")
+		okE := removes(u)
+		if !okE {
+			for _, anc := range pathTo(u.Decl.Body, ev.node) {
+				ifs, ok := anc.(*ast.IfStmt)
+				if !ok {
+					continue
+				}
+				// the branch holding the decrement
+				var branch ast.Node
+				if ifs.Body.Pos() <= ev.node.Pos() && ev.node.End() <= ifs.Body.End() {
+					branch = ifs.Body
+				} else if ifs.Else != nil && ifs.Else.Pos() <= ev.node.Pos() && ev.node.End() <= ifs.Else.End() {
+					branch = ifs.Else
+				}
+				if branch == nil {
+					continue
+				}
+				if isLit(info, branch) {
+					okE = true
+				}
+				// `los, created := helper(...)`; if created { defer ... }
+				ast.Inspect(ifs.Cond, func(m ast.Node) bool {
+					id, ok := m.(*ast.Ident)
+					if !ok {
+						return true
 					}
-					if cl, ok := m.(*ast.CompositeLit); ok {
-						if tv, ok := info.Types[cl]; ok && namedIs(tv.Type, modPath+"/"+nfsPkg, "nfs41LockOwnerState") {
-							created = true
+					for _, src := range definingCalls(u, id) {
+						if h := calleeOf(info, src); h != nil && p.Decl(h) != nil && isLit(p.InfoFor(p.Decl(h)), p.Decl(h).Body) {
+							okE = true
 						}
 					}
 					return true
 				})
-				if created && blk != u.Decl.Body {
-					// the block must be the one directly holding both the creation and the call
-					for _, s2 := range blk.List {
-						if d, ok := s2.(*ast.DeferStmt); ok && d.Call == cs.Node {
-							inCreatingBlock = true
-						}
-						if es, ok := s2.(*ast.ExprStmt); ok && es.X == ast.Expr(cs.Node.(*ast.CallExpr)) {
-							inCreatingBlock = true
-						}
-					}
-				}
 			}
 		}
-		if removes || inCreatingBlock {
-			r.ok(construct, posOf(p, cs.Node), "paired with a removal / with the creation's initial count")
+		if okE {
+			r.ok(construct+"@"+posOf(p, ev.node), posOf(p, ev.node), "paired with a removal / with the creation's initial count")
 		} else {
-			r.bad(c.Prop, construct, posOf(p, cs.Node), "the lock-owner's file count is decremented on a path that neither removes a file nor created the owner with its initial reference: the owner record is dropped while it still holds locks on another file, and a new record (a different identity) is then blocked by its own locks")
+			r.bad(c.Prop, construct, posOf(p, ev.node), "the lock-owner's file count is decremented on a path that neither removes a file nor created the owner with its initial reference: the owner record is dropped while it still holds locks on another file, and a new record (a different identity) is then blocked by its own locks")
 		}
 	}
 	return r
+}
+
+// definingCalls: the calls whose (possibly tuple) result is assigned to the variable id denotes.
+func definingCalls(u *FuncUnit, id *ast.Ident) []*ast.CallExpr {
+	info := u.Info()
+	obj := info.ObjectOf(id)
+	var out []*ast.CallExpr
+	if obj == nil {
+		return nil
+	}
+	ast.Inspect(u.Decl.Body, func(n ast.Node) bool {
+		as, ok := n.(*ast.AssignStmt)
+		if !ok {
+			return true
+		}
+		for i, l := range as.Lhs {
+			lid, ok := l.(*ast.Ident)
+			if !ok || info.ObjectOf(lid) != obj {
+				continue
+			}
+			var rhs ast.Expr
+			if len(as.Rhs) == 1 {
+				rhs = as.Rhs[0]
+			} else if i < len(as.Rhs) {
+				rhs = as.Rhs[i]
+			}
+			if call, ok := ast.Unparen(rhs).(*ast.CallExpr); ok {
+				out = append(out, call)
+			}
+		}
+		return true
+	})
+	return out
 }
